@@ -106,6 +106,12 @@ def build_mesh(spec):
             areas = 10.0 ** rng.uniform(-dec / 2, dec / 2, len(pts))
             duals = 10.0 ** rng.uniform(-dec / 2, dec / 2, len(edges))
             bidx = np.where(counts == 1)[0]
+            if spec.get("zero_duals"):
+                # exactly zero dual edge lengths occur in real meshes (boundary triangle with a right angle opposite
+                # the boundary edge): the Laplacian weight of such an edge is 0, its gradient weight is not
+                z = rng.random(len(edges)) < spec["zero_duals"]
+                z[bidx[: max(1, len(bidx) // 4)]] = True
+                duals = np.where(z, 0.0, duals)
             em = EdgeMesh(
                 centers=pts[edges].mean(axis=1),
                 edges=edges,
